@@ -32,7 +32,7 @@ Want(c, q) ==
     [] q.f = "add_months" -> {AddMonthsDecl(c, q.d, q.mo, q.m, RollOfJson(q.roll), q.s)}
 Owned(q) ==
   CASE Prop = "C04" -> q.f = "roll"
-    [] Prop = "C05" -> q.f \in {"add_bus", "lag", "range", "add_days"}
+    [] Prop = "C05" -> q.f \in {"add_bus", "lag", "range", "add_days", "cal_range", "non_bus"}
     [] Prop = "C08" -> q.f = "add_months"
     [] Prop = "C20" -> TRUE
     [] OTHER -> TRUE
@@ -42,7 +42,14 @@ RangeVerdict(c, q) ==
   ELSE IF q.o = "panic" THEN "bad"
   ELSE IF w = ErrSeq THEN (IF q.o = "err" THEN "ok" ELSE "bad")
   ELSE IF q.o = "ok" /\ q.r = w THEN "ok" ELSE "bad"
+\* the calendar-date range is every day from a to b inclusive (empty when a > b); a non-business day is a day that is
+\* not a business day
+RECURSIVE Consec(_, _)
+Consec(a, b) == IF a > b THEN <<>> ELSE <<a>> \o Consec(a + 1, b)
+CalRangeVerdict(c, q) == IF q.o = "ok" /\ q.r = Consec(q.a, q.b) THEN "ok" ELSE "bad"
+NonBusVerdict(c, q) == IF ~InWin(c, q.d) THEN "oow" ELSE IF q.o = "ok" /\ q.r = ~Bus(c, q.d) THEN "ok" ELSE "bad"
 Verdict(c, q) ==
+  IF q.f = "cal_range" THEN CalRangeVerdict(c, q) ELSE IF q.f = "non_bus" THEN NonBusVerdict(c, q) ELSE
   IF q.f = "range" THEN RangeVerdict(c, q) ELSE
   LET w == Want(c, q) IN
   IF NoDate \in w THEN "oow"
